@@ -76,8 +76,9 @@ Judge(e) ==
                     /\ resps[1].kind \notin {"error", "panic", "timeout"} => RespMatches(UnitApply(e.cfg, seedcs, reqs[1], <<1, "m">>).resp, resps[1])
                     /\ final = seedcs
                     /\ FollowOK(e.cfg, final, [i \in DOMAIN e.follow |-> [req |-> e.follow[i].req, resp |-> e.follow[i].resp]], 1) >>,
-        \* a request refused because the write lock could not be had (somebody else held it) leaves everything as it was
-        <<"C18f", (e.faulted /\ e.lockbusy.n > 0 /\ Cardinality(rids) = 1 /\ resps[1].kind \in {"error", "refused"}) =>
+        \* a request refused because the write lock could not be had (somebody else held it), or given up on because the disk was
+        \* slow, leaves everything as it was - also once the slow call is over
+        <<"C18f", (e.faulted /\ (e.lockbusy.n > 0 \/ e.iodelay.ms > 0) /\ Cardinality(rids) = 1 /\ resps[1].kind \in {"error", "refused"}) =>
                     (final = seedcs /\ e.other = e.other0) >>,
         <<"C05", e.faulted =>
                    ( Cardinality(rids) = 1
